@@ -144,8 +144,8 @@ theorem pi_emit (s : State) (e : Event) (h : isProtEv e = false) : pi (emit s e)
   · simp
   · rfl
 
-@[simp] theorem pi_buildNow (s : State) (p : Peer) (id : Id) (ops : List TxOp) :
-    pi (buildNow s p id ops) = pi s := by
+@[simp] theorem pi_buildNow (s : State) (party : Party) (p : Peer) (id : Id) (ops : List TxOp) :
+    pi (buildNow s party p id ops) = pi s := by
   unfold buildNow
   simp only
   split
@@ -502,6 +502,34 @@ theorem pi_processUpdate (s : State) (id : Id) (plan : UP) (hp : s.park = none) 
 
 @[simp] theorem pi_clearPubWait (s : State) (p : Peer) : pi (clearPubWait s p) = pi s := by
   unfold clearPubWait; simp
+
+@[simp] theorem pi_dropNerr (s : State) (p : Peer) (id : Id) : pi (dropNerr s p id) = pi s := by
+  unfold dropNerr; simp
+
+/-- the handler of CloseWithNetworkError, with the pair destructured -/
+theorem handle_closeNetErr (s : State) (id : Id) (inc : Nat) (pub : Peer) :
+    handle s (.closeNetErr id inc pub) =
+      if isInc s id inc = true then
+        (if ((abortRequest s id .network).2 == .ok) = true then clearPubWait (abortRequest s id .network).1 pub
+         else dropNerr (clearPubWait (abortRequest s id .network).1 pub) pub id)
+      else dropNerr (clearPubWait s pub) pub id := by
+  show (match (if isInc s id inc = true then abortRequest s id .network else (s, ApiRes.notFound)) with
+        | (s1, r) => if (r == ApiRes.ok) = true then clearPubWait s1 pub else dropNerr (clearPubWait s1 pub) pub id) = _
+  by_cases h : isInc s id inc = true
+  · rw [if_pos h, if_pos h]
+  · rw [if_neg h, if_neg h]; rfl
+
+/-- the handler of TerminateRequest -/
+theorem handle_terminate (s : State) (id : Id) (inc : Nat) (pub : Peer) :
+    handle s (.terminate id inc pub) = clearPubWait (if isInc s id inc = true then terminate s id else s) pub := rfl
+
+theorem pi_handle_closeNetErr (s : State) (id : Id) (inc : Nat) (pub : Peer) :
+    pi (handle s (.closeNetErr id inc pub)) = pi (abortRequest s id .network).1 ∨
+    pi (handle s (.closeNetErr id inc pub)) = pi s := by
+  rw [handle_closeNetErr]
+  split
+  · left; split <;> simp
+  · right; simp
 
 -- ------------------------------------------------------------------ retiring: terminate
 /-- effect of `terminateRequest` on the registry projection -/
